@@ -6,11 +6,14 @@ from checks import runner_common as rc, update_common as uc
 PROPERTY = "C05"
 LEVEL = "proof"
 TRUSTED = ["the update function abstracted by its contract (returns a positive dt, advances the state by one, appends one column to the buffer)",
-           "DataHandler.save_time_step abstracted: a frame is what it is handed (attrs, data, buffer) - the HDF5 layout and the reader are covered by the bounded native run",
+           "DataHandler.save_time_step abstracted: a frame is what it is handed (attrs, data, buffer); the reader units ASSUME the file holds exactly those frames "
+           "(the HDF5 layout written by save_time_step - squeeze of the leading axis, group names - is covered by the bounded native run)",
+           "numpy as used by the reader (checks/reader_common.py: concatenate of equal-shaped blocks, boolean-mask selection resolved through the prefix lemma, cumsum, strided slice)",
            "numpy model (zeros, column store)"]
 ASSUMPTIONS = ["save_every >= 1, dt_init > 0, every dt returned by the update is > 0 (C12.positive)",
-               "reader side (DynamicsData.from_hdf5, Solution.times, squeeze/concatenate ranks) is NOT under contract: decided only by the exhaustive bounded native "
-               "run within save_every <= N+2, N <= 9 (thorough tier; also the replay harness of every obligation here)",
+               "reader side: DynamicsData.from_hdf5 (frame loop cut at an invariant, symbolic number of frames and buffer size), Solution.times and the range handed over by "
+               "load_tdgl_data are under contract against the writer's postcondition; what save_time_step makes of the buffer on disk (squeeze / ranks) is decided only by the "
+               "bounded native run within save_every <= N+2, N <= 9 (also the replay harness of every obligation here)",
                "tqdm, logging and the monitor subprocess are outside the contract (tmp_file None)"]
 EXPLANATION = "loop invariant with ghost history T(j), dts(j), S(n) on the real Runner._run_stage for symbolic save_every, end_time and step sequence"
 F = "tdgl.solver.runner:Runner."
@@ -78,6 +81,12 @@ def units():
             Unit("_run_stage[thermalisation]", F + "_run_stage", _stage(False), props=["C05"], timeout=900),
             Unit("_run_stage[save, interrupted update]", F + "_run_stage", _stage(True, "update_interrupt"), props=["C05", "C15"], timeout=900),
             Unit("run[stages]", F + "run", lambda m=None: rc.run_run(m, prefixes=P), props=["C05"], timeout=600),
+            Unit("DynamicsData.from_hdf5[file written by the runner]", "tdgl.solution.data:DynamicsData.from_hdf5 / DynamicsData.__post_init__",
+                 lambda m=None: __import__("checks.reader_common", fromlist=["x"]).run_reader(m, prefixes=P), props=["C05", "C14"], timeout=600),
+            Unit("Solution.times", "tdgl.solution.solution:Solution.times",
+                 lambda m=None: __import__("checks.reader_common", fromlist=["x"]).run_times(m, prefixes=P), props=["C05"], timeout=300),
+            Unit("Solution.load_tdgl_data[records over the full range]", "tdgl.solution.solution:Solution.load_tdgl_data",
+                 lambda m=None: __import__("checks.c14", fromlist=["x"]).run_solve_step(m, prefixes=P), props=["C05", "C14"], timeout=300),
             Unit("update[no screening, static A]", "tdgl.solver.solver:TDGLSolver.update", _upd(False, False), props=["C05"], timeout=900),
             Unit("update[screening, static A]", "tdgl.solver.solver:TDGLSolver.update", _upd(True, False), props=["C05"], timeout=900),
             _h.bounded_unit("frames, times and records of real runs [bounded]", "tdgl.solver.runner:Runner / tdgl.solution.data:DynamicsData (real h5py)", "C05", _bounded_quick, "frames_times_and_records_match_the_executable_specification[N<=5 exhaustive]", timeout=900)]
@@ -103,7 +112,16 @@ def replay(unit, obl):
 
 R_ = "tdgl.solver.runner"
 S_ = "tdgl.solver.solver"
+DD_ = "tdgl.solution.data"
+SO_ = "tdgl.solution.solution"
 MUTANTS = [
+    dict(name="reader drops the last frame's records", edits=[(DD_, "for i in range(step_min, step_max + 1):\n                grp = h5file[f\"data/{i}\"]\n                if \"running_state\" not in grp:", "for i in range(step_min, step_max):\n                grp = h5file[f\"data/{i}\"]\n                if \"running_state\" not in grp:")], units=["DynamicsData.from_hdf5[file written by the runner]"]),
+    dict(name="reader keeps the zero padding", edits=[(DD_, "            mask = dt > 0\n", "            mask = dt > -1\n")], units=["DynamicsData.from_hdf5[file written by the runner]"]),
+    dict(name="reader: probe potentials not masked", edits=[(DD_, "mu = np.concatenate(mus, axis=1)[..., mask]", "mu = np.concatenate(mus, axis=1)")], units=["DynamicsData.from_hdf5[file written by the runner]"]),
+    dict(name="benign: reader skips frame 0 explicitly", expect="pass", edits=[(DD_, "                if \"running_state\" not in grp:\n                    continue\n                grp = grp[\"running_state\"]", "                if i == 0 or \"running_state\" not in grp:\n                    continue\n                grp = grp[\"running_state\"]")], units=["DynamicsData.from_hdf5[file written by the runner]"]),
+    dict(name="times without the leading zero", edits=[(SO_, "times = np.concatenate([[0.0], self.dynamics.time])", "times = np.concatenate([self.dynamics.time[:0], self.dynamics.time])")], units=["Solution.times"]),
+    dict(name="times: final time never appended", edits=[(SO_, "        if saved_times[-1] == times[-1]:\n            return saved_times.copy()\n", "        return saved_times.copy()\n")], units=["Solution.times"]),
+    dict(name="records read only up to the loaded frame", edits=[(SO_, "self.dynamics = DynamicsData.from_hdf5(f, *self.data_range)", "self.dynamics = DynamicsData.from_hdf5(f, step_min, step)")], units=["Solution.load_tdgl_data[records over the full range]"]),
     dict(name="save at i % save_every == 1", edits=[(R_, "if i % self.options.save_every == 0:", "if i % self.options.save_every == 1:")]),
     dict(name="final save condition negated", edits=[(R_, "if save and (i % self.options.save_every):", "if save and not (i % self.options.save_every):")]),
     dict(name="stop test after the update again", edits=[(R_, "                    if self.time >= end_time:\n                        break\n                    # Run time step.", "                    # Run time step."),
